@@ -4,13 +4,15 @@
 (*                                                                            *)
 (* Shaped like the code: owned[sponsor] and pendingSize are maintained        *)
 (* incrementally exactly as add / popNext / Remove / SetMinTimestamp do,      *)
-(* add() applies its four skip tests in the code's order, streamedItems /     *)
-(* nextStream / nextStreamFetched follow StartStreaming / PrepareStream /     *)
-(* Stream / FinishStreaming.  The expiry heap is represented by the set it    *)
-(* denotes (C25 ties internal/eheap to that set).                             *)
+(* add() skips streamed and held items and refuses only at a limit,           *)
+(* streamedItems / nextStream / nextStreamFetched follow StartStreaming /     *)
+(* PrepareStream / Stream / FinishStreaming.  The expiry heap is represented  *)
+(* by the set it denotes (C25 ties internal/eheap to that set).               *)
 (*                                                                            *)
-(* One deliberate abstraction, so that the model states the *property* and    *)
-(* not today's list manipulation: the linked list is split into               *)
+(* Two deliberate abstractions, so that the model states the *property* and   *)
+(* not today's list manipulation: (1) which candidates of one add are refused *)
+(* when a limit is reached is left open (see Accepts); (2) the linked list is *)
+(* split into                                                                 *)
 (*   rest : the SET of items given back after a build (PushFront)             *)
 (*   fifo : the SEQUENCE of items in arrival order (PushBack)                 *)
 (* The statement says restored items are handed out first but fixes no order  *)
@@ -60,20 +62,33 @@ Init == \E ms \in MaxSizes, msp \in MaxSponsors, a \in Attrs : InitWith(ms, msp,
 (* ---- the pool part of the state as a record, so that loops can be folded ---- *)
 Pool == [rest |-> rest, fifo |-> fifo, owned |-> owned, psize |-> psize]
 
-(* Mempool.add for one item; blocked = streamedItems (or {} when nil) *)
-Add1(p, i, front, blocked) ==
-  IF i \in blocked THEN p
-  ELSE IF i \in p.rest \cup SeqSet(p.fifo) THEN p
-  ELSE IF p.owned[attr[i].sp] = maxSponsor THEN p
-  ELSE IF Cardinality(p.rest) + Len(p.fifo) = maxSize THEN p
-  ELSE [rest  |-> IF front THEN p.rest \cup {i} ELSE p.rest,
-        fifo  |-> IF front THEN p.fifo ELSE Append(p.fifo, i),
-        owned |-> [p.owned EXCEPT ![attr[i].sp] = @ + 1],
-        psize |-> p.psize + attr[i].sz]
+(* Mempool.add.  An item is a candidate unless it is blocked (in streamedItems) or already held; a candidate is   *)
+(* refused only at a limit (owned[sponsor] = maxSponsorSize or queue size = maxSize).  The code walks the list in *)
+(* order, so which candidates are refused when a limit is reached depends on that order; the statement does not  *)
+(* say, so the model admits every outcome S in which each refused candidate is refused by a limit that is        *)
+(* reached in the resulting pool (= the outcomes of all processing orders; the pool only grows during an add).   *)
+SpCount(H, s) == Cardinality({i \in H : attr[i].sp = s})
+Cand(items, blocked) == {i \in SeqSet(items) : i \notin blocked /\ i \notin Held}
+Accepts(C, S) ==
+  /\ S \subseteq C
+  /\ Cardinality(Held \cup S) <= maxSize
+  /\ \A s \in Sponsors : SpCount(Held \cup S, s) <= maxSponsor
+  /\ \A d \in C \ S : Cardinality(Held \cup S) = maxSize \/ SpCount(Held \cup S, attr[d].sp) = maxSponsor
 
-RECURSIVE AddAll(_, _, _, _)
-AddAll(p, items, front, blocked) ==
-  IF items = <<>> THEN p ELSE AddAll(Add1(p, Head(items), front, blocked), Tail(items), front, blocked)
+Put(p, i, front) ==      \* PushBack / PushFront + eh.Add + owned++ + pendingSize += Size
+  [rest  |-> IF front THEN p.rest \cup {i} ELSE p.rest,
+   fifo  |-> IF front THEN p.fifo ELSE Append(p.fifo, i),
+   owned |-> [p.owned EXCEPT ![attr[i].sp] = @ + 1],
+   psize |-> p.psize + attr[i].sz]
+
+RECURSIVE PutSeq(_, _, _, _)       \* the members of S, in list order, first occurrence only
+PutSeq(p, items, S, front) ==
+  IF items = <<>> THEN p
+  ELSE IF Head(items) \in S THEN PutSeq(Put(p, Head(items), front), Tail(items), S \ {Head(items)}, front)
+  ELSE PutSeq(p, Tail(items), S, front)
+
+RECURSIVE PutSet(_, _)
+PutSet(p, S) == IF S = {} THEN p ELSE LET i == CHOOSE x \in S : TRUE IN PutSet(Put(p, i, TRUE), S \ {i})
 
 (* removal of a set of held items: queue.Remove + removeFromOwned + pendingSize -= Size *)
 RECURSIVE Drop(_, _)
@@ -95,8 +110,9 @@ Batch(k, RS)  == RS \subseteq rest /\ Cardinality(RS) = TakeR(k)
 BatchF(k)     == SubSeq(fifo, 1, TakeF(k))
 
 (* ---- public calls ---- *)
-Add(items) ==                        \* Mempool.Add (back)
-  /\ SetPool(AddAll(Pool, items, FALSE, IF streaming THEN streamed ELSE {}))
+Add(items, S) ==                     \* Mempool.Add (back); S = the items that get in
+  /\ Accepts(Cand(items, IF streaming THEN streamed ELSE {}), S)
+  /\ SetPool(PutSeq(Pool, items, S, FALSE))
   /\ res' = NoRes /\ StreamUnch /\ UNCHANGED cvars
 
 Remove(items) ==                     \* Mempool.Remove: unknown ids are skipped
@@ -146,14 +162,11 @@ Stream(k, RS) ==                     \* Mempool.Stream
           /\ UNCHANGED <<nextR, nextF, fetched>>
   /\ UNCHANGED <<cvars, streaming>>
 
-FinishStreaming(restorable) ==       \* streamedItems = nil; add(restorable, front); add(nextStream, front)
+FinishStreaming(restorable, S) ==    \* streamedItems = nil; add(restorable, front); add(nextStream, front)
   /\ streaming
-  /\ LET p1 == AddAll(Pool, restorable, TRUE, {})
-         nx == IF fetched THEN nextF ELSE <<>>
-         nr == IF fetched THEN nextR ELSE {}
-     IN \* the prepared batch goes back too, in its own order: its restored part (some order), then its fifo part
-        \E order \in {q \in [1 .. Cardinality(nr) -> nr] : SeqSet(q) = nr} :
-           SetPool(AddAll(AddAll(p1, order, TRUE, {}), nx, TRUE, {}))
+  /\ LET given == SeqSet(restorable) \cup (IF fetched THEN nextR \cup SeqSet(nextF) ELSE {})
+     IN /\ Accepts(given \ Held, S)            \* nothing is blocked any more; the prepared batch goes back too
+        /\ SetPool(PutSet(Pool, S))
   /\ streaming' = FALSE /\ streamed' = {} /\ nextR' = {} /\ nextF' = <<>> /\ fetched' = FALSE
   /\ res' = NoRes /\ UNCHANGED cvars
 
